@@ -125,6 +125,10 @@ type FS struct {
 	CrashAt   int64 // crash when OpCount reaches this value (0 = off)
 	CrashPh   int   // Before / After / Torn
 	TornBytes int   // for Torn: number of bytes of the write that survive (<len)
+	// CrashKind/CrashKindLeft: alternative trigger, "the CrashKindLeft-th next operation of this
+	// kind" (rename, sync, remove ...): aims crashes at the boundaries between protocol steps.
+	CrashKind     string
+	CrashKindLeft int64
 	OnCrash   func(f *FS)
 	// OnOp is called for every mutating operation (before it takes effect).
 	OnOp func(f *FS, n int64, kind string, p string, size int)
@@ -209,6 +213,7 @@ func (f *FS) Thaw() {
 	f.Frozen = false
 	f.gen++
 	f.CrashAt = 0
+	f.CrashKind = ""
 	f.ErrAt = 0
 }
 
@@ -237,6 +242,13 @@ func (f *FS) step(kind, p string, size int) (torn int, err error) {
 	f.LastOpKind, f.LastOpPath = kind, p
 	if f.OnOp != nil {
 		f.OnOp(f, f.OpCount, kind, p, size)
+	}
+	if f.CrashKind != "" && kind == f.CrashKind {
+		f.CrashKindLeft--
+		if f.CrashKindLeft <= 0 {
+			f.CrashKind = ""
+			f.CrashAt = f.OpCount
+		}
 	}
 	if f.CrashAt != 0 && f.OpCount == f.CrashAt {
 		switch f.CrashPh {
